@@ -556,6 +556,75 @@ func checkEqualHelpers(p *Prog, r *Report) {
 	})
 	r.decide(okStrict && nRet >= 2, "C17.equal", "EqualStrict:shape", p.pos(eqs.Pos()), "false when the IDs differ, otherwise Equal(r1, r2)", "EqualStrict is not 'IDs equal and Equal(r1, r2)'")
 
+	// the ID test itself: every branch of EqualStrict asks one question, whether
+	// the ID read from the first resource equals the ID read from the second; a
+	// further conjunct (non-empty, same length, ...) makes some pair of
+	// different IDs pass.
+	idOf := func(v ssa.Value) int {
+		for {
+			switch x := v.(type) {
+			case *ssa.TypeAssert:
+				v = x.X
+				continue
+			case *ssa.Extract:
+				if ta, ok := x.Tuple.(*ssa.TypeAssert); ok && x.Index == 0 {
+					v = ta.X
+					continue
+				}
+			case *ssa.ChangeType:
+				v = x.X
+				continue
+			}
+			break
+		}
+		c, _ := callOf(v)
+		if c == nil {
+			return -1
+		}
+		cc := c.Common()
+		if !cc.IsInvoke() {
+			return -1
+		}
+		switch cc.Method.Name() {
+		case "Get":
+			if s, ok := constString(cc.Args[0]); !ok || s != "id" {
+				return -1
+			}
+		case "GetID":
+		default:
+			return -1
+		}
+		for i, prm := range eqs.Params {
+			if cc.Value == ssa.Value(prm) {
+				return i
+			}
+		}
+		return -1
+	}
+	nIf, badIf := 0, ""
+	eachInstr(eqs, func(ins ssa.Instruction) {
+		iff, ok := ins.(*ssa.If)
+		if !ok {
+			return
+		}
+		nIf++
+		b, ok := iff.Cond.(*ssa.BinOp)
+		if !ok || (b.Op != token.NEQ && b.Op != token.EQL) {
+			badIf = "a branch of EqualStrict does not compare the two IDs for equality"
+			return
+		}
+		x, y := idOf(b.X), idOf(b.Y)
+		if !(x == 0 && y == 1 || x == 1 && y == 0) {
+			badIf = "a branch of EqualStrict compares something other than the ID of the first resource with the ID of the second (an extra condition lets two different IDs pass, e.g. when one of them is empty)"
+		}
+	})
+	r.decide(badIf == "" && nIf == 1, "C17.equal", "EqualStrict:id-test", p.pos(eqs.Pos()), "the only branch of EqualStrict is the comparison of Get(\"id\") of one resource with Get(\"id\") of the other", func() string {
+		if badIf != "" {
+			return badIf
+		}
+		return fmt.Sprintf("EqualStrict has %d branches, expected exactly one (the ID comparison)", nIf)
+	}())
+
 	// scenario evaluation of the to-many comparison
 	for _, sc := range []struct {
 		l1, l2 bool // non-empty?
